@@ -23,8 +23,15 @@ if [ -n "$SUITE" ]; then
   PASSED=$(ctest --test-dir $W/build -j16 --timeout 900 2>&1 | grep -c "   Passed")
   echo "suite with patch: $PASSED passed"
 fi
-git -C $W/wt checkout -q -- .
-# 3. the check against /repo itself
-git -C /repo apply $D/patch.diff
-( cd /verif && bin/check $PROP --tier quick 2>&1 | cut -c1-260 | tail -6 ); 
-git -C /repo checkout -- .
+# 3. the check: against /repo itself with the patch applied and undone straight afterwards (default), or - while other
+#    runs use /repo - against the scratch worktree ( TRY_SEED_MODE=worktree )
+TIER=${TRY_SEED_TIER:-quick}
+if [ "${TRY_SEED_MODE:-repo}" = "worktree" ]; then
+  ( cd /verif && VERIF_REPO=$W/wt bin/check $PROP --tier $TIER 2>&1 | cut -c1-260 | tail -6 )
+  git -C $W/wt checkout -q -- .
+else
+  git -C $W/wt checkout -q -- .
+  git -C /repo apply $D/patch.diff
+  ( cd /verif && bin/check $PROP --tier $TIER 2>&1 | cut -c1-260 | tail -6 )
+  git -C /repo checkout -- .
+fi
